@@ -738,6 +738,10 @@ impl PaZipCompressor {
             return Err(ZiporaError::invalid_data("Invalid backreference distance"));
         }
 
+        if length > crate::entropy::MAX_DECOMPRESSED_SIZE.saturating_sub(output.len()) {
+            return Err(ZiporaError::invalid_data("Match length exceeds the decompressed size limit"));
+        }
+
         let start_pos = output.len() - distance;
         
         // Handle overlapping copies (pattern repetition)
